@@ -1,5 +1,325 @@
 import RzmqModel.Model.Rpq
 /-! Helper lemmas and the inductive invariant of the ready-pipe queue model (C08, C09). -/
+set_option linter.unusedSimpArgs false
+set_option linter.unusedVariables false
 namespace Rzmq
+
+-- ---------------------------------------------------------------------------------------------
+-- Bool → Int indicator, sums
+-- ---------------------------------------------------------------------------------------------
+
+/-- indicator of a Boolean as an integer -/
+def b2i (b : Bool) : Int := if b then 1 else 0
+
+@[simp] theorem b2i_true : b2i true = 1 := rfl
+@[simp] theorem b2i_false : b2i false = 0 := rfl
+theorem b2i_nonneg (b : Bool) : 0 ≤ b2i b := by cases b <;> simp
+theorem b2i_le_one (b : Bool) : b2i b ≤ 1 := by cases b <;> simp
+
+theorem filter_length_eq_sum {α : Type} (l : List α) (f : α → Bool) :
+    ((l.filter f).length : Int) = (l.map fun e => b2i (f e)).sum := by
+  induction l with
+  | nil => rfl
+  | cons a l ih =>
+    by_cases h : f a = true
+    · simp [List.filter_cons, h, ← ih]; omega
+    · have h' : f a = false := by simpa using h
+      simp [List.filter_cons, h', ← ih]
+
+theorem sum_nonneg_of_forall (l : List Int) (h : ∀ x ∈ l, 0 ≤ x) : 0 ≤ l.sum := by
+  induction l with
+  | nil => simp
+  | cons a l ih =>
+    have h1 := h a (by simp)
+    have h2 := ih (fun x hx => h x (by simp [hx]))
+    simp; omega
+
+theorem sum_map_eq_zero {α : Type} (l : List α) (g : α → Int) (h : ∀ e ∈ l, g e = 0) : (l.map g).sum = 0 := by
+  induction l with
+  | nil => rfl
+  | cons a l ih =>
+    have h1 := h a (by simp)
+    have h2 := ih (fun x hx => h x (by simp [hx]))
+    simp [h1, h2]
+
+theorem sum_map_le_sum_map {α : Type} (l : List α) (f h : α → Int) (hp : ∀ e ∈ l, f e ≤ h e) :
+    (l.map f).sum ≤ (l.map h).sum := by
+  induction l with
+  | nil => simp
+  | cons a l ih =>
+    have h1 := hp a (by simp)
+    have h2 := ih (fun x hx => hp x (by simp [hx]))
+    simp; omega
+
+/-- `Σ f + g a ≤ Σ h` when `f + g ≤ h` pointwise, `f ≤ h` pointwise and `a` is a member -/
+theorem sum_map_add_le {α : Type} (l : List α) (f g h : α → Int) (a : α) (ha : a ∈ l)
+    (hp : ∀ e ∈ l, f e + g e ≤ h e) (hg : ∀ e ∈ l, 0 ≤ g e) :
+    (l.map f).sum + g a ≤ (l.map h).sum := by
+  induction l with
+  | nil => simp at ha
+  | cons b l ih =>
+    have hb := hp b (by simp)
+    have hgb := hg b (by simp)
+    rcases List.mem_cons.1 ha with rfl | ha'
+    · have := sum_map_le_sum_map l f h (fun e he => by
+        have := hp e (by simp [he]); have := hg e (by simp [he]); omega)
+      simp; omega
+    · have := ih ha' (fun e he => hp e (by simp [he])) (fun e he => hg e (by simp [he]))
+      simp; omega
+
+-- ---------------------------------------------------------------------------------------------
+-- counting: a list with ≤ 1 occurrence of each element, all drawn from `ids`, is no longer than `ids`
+-- ---------------------------------------------------------------------------------------------
+
+theorem length_le_of_count_le_one (l ids : List Nat) (hc : ∀ x, l.count x ≤ 1) (hm : ∀ x ∈ l, x ∈ ids) :
+    l.length ≤ ids.length := by
+  induction l generalizing ids with
+  | nil => simp
+  | cons a l ih =>
+    have ha : a ∈ ids := hm a (by simp)
+    have hca : l.count a = 0 := by
+      have := hc a
+      simp at this
+      exact this
+    have hnot : a ∉ l := by
+      intro hmem
+      have := List.count_pos_iff.2 hmem
+      omega
+    have := ih (ids.erase a)
+      (fun x => by
+        have := hc x
+        rw [List.count_cons] at this
+        omega)
+      (fun x hx => by
+        have hne : x ≠ a := fun e => hnot (e ▸ hx)
+        exact (List.mem_erase_of_ne hne).2 (hm x (by simp [hx])))
+    rw [List.length_erase_of_mem ha] at this
+    have : 0 < ids.length := List.length_pos_of_mem ha
+    simp
+    omega
+
+theorem length_lt_of_count_le_one (l ids : List Nat) (p : Nat) (hp : p ∈ ids) (hpl : p ∉ l)
+    (hc : ∀ x, l.count x ≤ 1) (hm : ∀ x ∈ l, x ∈ ids) : l.length < ids.length := by
+  have := length_le_of_count_le_one l (ids.erase p) hc (fun x hx => by
+    have hne : x ≠ p := fun e => hpl (e ▸ hx)
+    exact (List.mem_erase_of_ne hne).2 (hm x hx))
+  rw [List.length_erase_of_mem hp] at this
+  have : 0 < ids.length := List.length_pos_of_mem hp
+  omega
+
+-- ---------------------------------------------------------------------------------------------
+-- tasks: lookup and update
+-- ---------------------------------------------------------------------------------------------
+
+theorem map_update_of_not_mem (l : List (String × Pc)) (t : String) (pc' : Pc) (h : t ∉ l.map (·.1)) :
+    (l.map fun e => if e.1 == t then (t, pc') else e) = l := by
+  induction l with
+  | nil => rfl
+  | cons a l ih =>
+    simp only [List.map_cons, List.mem_cons, not_or] at h
+    have h1 : ¬ a.1 = t := fun e => h.1 e.symm
+    have := ih h.2
+    simp only [List.map_cons, this]
+    simp [h1]
+
+theorem sum_map_update (l : List (String × Pc)) (t : String) (pc pc' : Pc) (g : Pc → Int)
+    (hnd : (l.map (·.1)).Nodup) (h : (l.find? (·.1 == t)).map (·.2) = some pc) :
+    ((l.map fun e => if e.1 == t then (t, pc') else e).map fun e => g e.2).sum
+      = (l.map fun e => g e.2).sum - g pc + g pc' := by
+  induction l with
+  | nil => simp at h
+  | cons a l ih =>
+    rw [List.map_cons, List.nodup_cons] at hnd
+    by_cases h1 : a.1 = t
+    · have hn : t ∉ l.map (·.1) := h1 ▸ hnd.1
+      simp [List.find?_cons, h1] at h
+      have e1 := map_update_of_not_mem l t pc' hn
+      simp only [List.map_cons, e1]
+      simp [h1, ← h]
+      omega
+    · have h1' : (a.1 == t) = false := by simpa using h1
+      simp [List.find?_cons, h1'] at h
+      have := ih hnd.2 (by simpa using h)
+      simp only [List.map_cons, List.sum_cons, this]
+      simp [h1]
+      omega
+
+theorem names_map_update (l : List (String × Pc)) (t : String) (pc' : Pc) :
+    (l.map fun e => if e.1 == t then (t, pc') else e).map (·.1) = l.map (·.1) := by
+  rw [List.map_map]
+  apply List.map_congr_left
+  intro a _
+  by_cases h1 : a.1 = t
+  · simp [h1]
+  · simp [h1]
+
+theorem mem_map_update (l : List (String × Pc)) (t : String) (pc' : Pc) (e : String × Pc)
+    (he : e ∈ l.map fun e => if e.1 == t then (t, pc') else e) : e = (t, pc') ∨ e ∈ l := by
+  rcases List.mem_map.1 he with ⟨a, ha, rfl⟩
+  by_cases h1 : a.1 = t
+  · simp [h1]
+  · have h1' : (a.1 == t) = false := by simpa using h1
+    simp [h1', ha]
+
+theorem RpqSt.task?_mem (s : RpqSt) (t : String) (pc : Pc) (h : s.task? t = some pc) : (t, pc) ∈ s.tasks := by
+  unfold RpqSt.task? at h
+  cases hf : s.tasks.find? (·.1 == t) with
+  | none => simp [hf] at h
+  | some e =>
+    simp [hf] at h
+    have h1 := List.find?_some hf
+    have h2 := List.mem_of_find?_eq_some hf
+    simp at h1
+    obtain ⟨a, b⟩ := e
+    simp at h h1
+    subst h h1
+    exact h2
+
+@[simp] theorem RpqSt.setTask_tasks (s : RpqSt) (t : String) (pc : Pc) :
+    (s.setTask t pc).tasks = s.tasks.map fun e => if e.1 == t then (t, pc) else e := rfl
+@[simp] theorem RpqSt.setTask_pipes (s : RpqSt) (t : String) (pc : Pc) : (s.setTask t pc).pipes = s.pipes := rfl
+@[simp] theorem RpqSt.setTask_ready (s : RpqSt) (t : String) (pc : Pc) : (s.setTask t pc).ready = s.ready := rfl
+@[simp] theorem RpqSt.setTask_readyCap (s : RpqSt) (t : String) (pc : Pc) : (s.setTask t pc).readyCap = s.readyCap := rfl
+@[simp] theorem RpqSt.setTask_accepted (s : RpqSt) (t : String) (pc : Pc) : (s.setTask t pc).accepted = s.accepted := rfl
+@[simp] theorem RpqSt.setTask_takenLog (s : RpqSt) (t : String) (pc : Pc) : (s.setTask t pc).takenLog = s.takenLog := rfl
+@[simp] theorem RpqSt.setTask_pipe? (s : RpqSt) (t : String) (pc : Pc) (p : Nat) : (s.setTask t pc).pipe? p = s.pipe? p := rfl
+
+@[simp] theorem RpqSt.setPipe_tasks (s : RpqSt) (ps : PipeSt) : (s.setPipe ps).tasks = s.tasks := rfl
+@[simp] theorem RpqSt.setPipe_pipes (s : RpqSt) (ps : PipeSt) :
+    (s.setPipe ps).pipes = s.pipes.map fun q => if q.id == ps.id then ps else q := rfl
+@[simp] theorem RpqSt.setPipe_ready (s : RpqSt) (ps : PipeSt) : (s.setPipe ps).ready = s.ready := rfl
+@[simp] theorem RpqSt.setPipe_readyCap (s : RpqSt) (ps : PipeSt) : (s.setPipe ps).readyCap = s.readyCap := rfl
+@[simp] theorem RpqSt.setPipe_accepted (s : RpqSt) (ps : PipeSt) : (s.setPipe ps).accepted = s.accepted := rfl
+@[simp] theorem RpqSt.setPipe_takenLog (s : RpqSt) (ps : PipeSt) : (s.setPipe ps).takenLog = s.takenLog := rfl
+
+theorem RpqSt.pushReady_eq (s s' : RpqSt) (p : Nat) (h : s.pushReady p = some s') :
+    s' = { s with ready := s.ready ++ [p] } ∧ s.ready.length < s.readyCap := by
+  unfold RpqSt.pushReady at h
+  split at h
+  · simp at h; exact ⟨h.symm, by assumption⟩
+  · simp at h
+
+theorem RpqSt.pushReady_getD (s : RpqSt) (p : Nat) :
+    (s.pushReady p).getD s = s ∨ (s.pushReady p).getD s = { s with ready := s.ready ++ [p] } := by
+  unfold RpqSt.pushReady
+  split <;> simp
+
+@[simp] theorem RpqSt.pushReady_getD_pipes (s : RpqSt) (p : Nat) : ((s.pushReady p).getD s).pipes = s.pipes := by
+  rcases s.pushReady_getD p with h | h <;> rw [h]
+@[simp] theorem RpqSt.pushReady_getD_tasks (s : RpqSt) (p : Nat) : ((s.pushReady p).getD s).tasks = s.tasks := by
+  rcases s.pushReady_getD p with h | h <;> rw [h]
+@[simp] theorem RpqSt.pushReady_getD_readyCap (s : RpqSt) (p : Nat) : ((s.pushReady p).getD s).readyCap = s.readyCap := by
+  rcases s.pushReady_getD p with h | h <;> rw [h]
+@[simp] theorem RpqSt.pushReady_getD_accepted (s : RpqSt) (p : Nat) : ((s.pushReady p).getD s).accepted = s.accepted := by
+  rcases s.pushReady_getD p with h | h <;> rw [h]
+@[simp] theorem RpqSt.pushReady_getD_takenLog (s : RpqSt) (p : Nat) : ((s.pushReady p).getD s).takenLog = s.takenLog := by
+  rcases s.pushReady_getD p with h | h <;> rw [h]
+
+-- ---------------------------------------------------------------------------------------------
+-- pipes: lookup and update
+-- ---------------------------------------------------------------------------------------------
+
+theorem RpqSt.pipe?_some (s : RpqSt) (p : Nat) (ps : PipeSt) (h : s.pipe? p = some ps) : ps ∈ s.pipes ∧ ps.id = p := by
+  unfold RpqSt.pipe? at h
+  have h1 := List.find?_some h
+  have h2 := List.mem_of_find?_eq_some h
+  simp at h1
+  exact ⟨h2, h1⟩
+
+theorem find?_id_of_mem (l : List PipeSt) (q : PipeSt) (hnd : (l.map (·.id)).Nodup) (hq : q ∈ l) :
+    l.find? (·.id == q.id) = some q := by
+  induction l with
+  | nil => simp at hq
+  | cons a l ih =>
+    rw [List.map_cons, List.nodup_cons] at hnd
+    rcases List.mem_cons.1 hq with rfl | hq'
+    · simp
+    · have hne : a.id ≠ q.id := by
+        intro e
+        apply hnd.1
+        rw [e]
+        exact List.mem_map.2 ⟨q, hq', rfl⟩
+      have : (a.id == q.id) = false := by simpa using hne
+      simp [List.find?_cons, this, ih hnd.2 hq']
+
+theorem RpqSt.pipe?_of_mem (s : RpqSt) (q : PipeSt) (hnd : (s.pipes.map (·.id)).Nodup) (hq : q ∈ s.pipes) :
+    s.pipe? q.id = some q := find?_id_of_mem s.pipes q hnd hq
+
+theorem RpqSt.pipe?_isSome_mem_ids (s : RpqSt) (p : Nat) (h : (s.pipe? p).isSome) : p ∈ s.pipes.map (·.id) := by
+  cases hps : s.pipe? p with
+  | none => simp [hps] at h
+  | some ps =>
+    have := s.pipe?_some p ps hps
+    exact List.mem_map.2 ⟨ps, this.1, this.2⟩
+
+theorem find?_map_id (l : List PipeSt) (F : PipeSt → PipeSt) (hF : ∀ q, (F q).id = q.id) (p : Nat) :
+    (l.map F).find? (·.id == p) = (l.find? (·.id == p)).map F := by
+  induction l with
+  | nil => rfl
+  | cons a l ih =>
+    by_cases h : a.id = p
+    · simp [List.find?_cons, hF, h]
+    · have : (a.id == p) = false := by simpa using h
+      simp [List.find?_cons, hF, this, ih]
+
+theorem RpqSt.pipe?_of_pipes_map (s s' : RpqSt) (F : PipeSt → PipeSt) (hF : ∀ q, (F q).id = q.id)
+    (hp : s'.pipes = s.pipes.map F) (p : Nat) : s'.pipe? p = (s.pipe? p).map F := by
+  unfold RpqSt.pipe?
+  rw [hp]
+  exact find?_map_id s.pipes F hF p
+
+theorem RpqSt.setPipe_pipe? (s : RpqSt) (ps' : PipeSt) (p : Nat) :
+    (s.setPipe ps').pipe? p = (s.pipe? p).map fun q => if q.id == ps'.id then ps' else q := by
+  apply RpqSt.pipe?_of_pipes_map s (s.setPipe ps') (fun q => if q.id == ps'.id then ps' else q)
+  · intro q
+    by_cases h : q.id = ps'.id
+    · simp [h]
+    · have : (q.id == ps'.id) = false := by simpa using h
+      simp [this]
+  · rfl
+
+-- ---------------------------------------------------------------------------------------------
+-- check-then-wait on Notify
+-- ---------------------------------------------------------------------------------------------
+
+namespace WaitSt
+
+/-- before the signal: the waiter is at a known pc and, once past its check, is registered -/
+def Pre (w : WaitSt) : Prop := (w.pc = 0 ∨ w.pc = 1 ∨ w.pc = 2) ∧ (w.pc = 1 → w.registered = true)
+
+/-- after the signal: the condition is true and the waiter cannot be stuck -/
+def Good (w : WaitSt) : Prop := w.cond = true ∧ (w.pc = 0 ∨ (w.pc = 1 ∧ w.notified = true) ∨ w.pc = 2)
+
+theorem pre_init : Pre {} := by simp [Pre]
+
+theorem pre_step (w : WaitSt) (h : Pre w) : Pre w.stepRegisterFirst.1 := by
+  obtain ⟨c, pc, r, n⟩ := w
+  obtain ⟨h1, h2⟩ := h
+  simp only at h1 h2
+  rcases h1 with rfl | rfl | rfl
+  · cases c <;> simp [Pre, stepRegisterFirst]
+  · cases n <;> cases c <;> simp_all [Pre, stepRegisterFirst]
+  · simp [Pre, stepRegisterFirst]
+
+theorem good_signal (w : WaitSt) (h : Pre w) : Good w.signal := by
+  obtain ⟨c, pc, r, n⟩ := w
+  obtain ⟨h1, h2⟩ := h
+  simp only at h1 h2
+  rcases h1 with rfl | rfl | rfl <;> simp_all [Good, signal]
+
+theorem good_signal' (w : WaitSt) (h : Good w) : Good w.signal := by
+  obtain ⟨c, pc, r, n⟩ := w
+  obtain ⟨h1, h2⟩ := h
+  simp only at h1 h2
+  rcases h2 with rfl | ⟨rfl, rfl⟩ | rfl <;> simp_all [Good, signal]
+
+theorem good_step (w : WaitSt) (h : Good w) : Good w.stepRegisterFirst.1 ∧ w.stepRegisterFirst.1.pc = 2 := by
+  obtain ⟨c, pc, r, n⟩ := w
+  obtain ⟨h1, h2⟩ := h
+  simp only at h1 h2
+  subst h1
+  rcases h2 with rfl | ⟨rfl, rfl⟩ | rfl <;> simp [Good, stepRegisterFirst]
+
+end WaitSt
 
 end Rzmq
